@@ -26,6 +26,12 @@ import (
 // TransportCCURI is the header extension URI of transport-wide congestion control.
 const TransportCCURI = "http://www.ietf.org/id/draft-holmer-rmcat-transport-wide-cc-extensions-01"
 
+// dumpFilter selects the packets a dump keeps by their contents ("key frames only" style): everything whose
+// payload does not start with the byte a scribbling caller writes, and whose timestamp is not the scribbled one.
+func dumpFilter(p *rtp.Packet) bool {
+	return (len(p.Payload) == 0 || p.Payload[0] != 0xEE) && p.Timestamp != 0xEEEEEEEE
+}
+
 // TwccExtID is the header extension id negotiated for transport-cc on negotiated streams.
 const TwccExtID = 5
 
@@ -124,20 +130,28 @@ func Kinds() []*Kind {
 			f.OnNewPeerConnection(func(_ string, g stats.Getter) { x.Stats = g })
 			return mk(f, nil, x)
 		}},
-		{Name: "packetdump-receiver", Variants: 2, New: func(v int) (interceptor.Interceptor, *Extra, error) {
+		{Name: "packetdump-receiver", Variants: 3, New: func(v int) (interceptor.Interceptor, *Extra, error) {
 			x := &Extra{DumpRTP: &bytes.Buffer{}, DumpRTCP: &bytes.Buffer{}}
 			opts := []packetdump.PacketDumperOption{packetdump.RTPWriter(x.DumpRTP), packetdump.RTCPWriter(x.DumpRTCP)}
 			if v == 1 {
 				opts = append(opts, packetdump.RTPBinaryFormatter(dumpBinary))
 			}
+			if v == 2 {
+				// default text format with a filter that looks at the packet's contents
+				opts = append(opts, packetdump.RTPFilter(dumpFilter))
+			}
 			f, err := packetdump.NewReceiverInterceptor(opts...)
 			return mk(f, err, x)
 		}},
-		{Name: "packetdump-sender", Variants: 2, New: func(v int) (interceptor.Interceptor, *Extra, error) {
+		{Name: "packetdump-sender", Variants: 3, New: func(v int) (interceptor.Interceptor, *Extra, error) {
 			x := &Extra{DumpRTP: &bytes.Buffer{}, DumpRTCP: &bytes.Buffer{}}
 			opts := []packetdump.PacketDumperOption{packetdump.RTPWriter(x.DumpRTP), packetdump.RTCPWriter(x.DumpRTCP)}
 			if v == 1 {
 				opts = append(opts, packetdump.RTPBinaryFormatter(dumpBinary))
+			}
+			if v == 2 {
+				// default text format with a filter that looks at the packet's contents
+				opts = append(opts, packetdump.RTPFilter(dumpFilter))
 			}
 			f, err := packetdump.NewSenderInterceptor(opts...)
 			return mk(f, err, x)
